@@ -22,7 +22,8 @@ RULE = ("A valid archive of 1-5 versions (built by the real `cond archive` from 
         "failure or kill, rows read through a fresh sqlite connection == rows before and every previously recorded directory is "
         "byte-identical; on reported success every archive row is recorded and its directory equals the archived tree. "
         "Non-trivial = the fault strikes after >=1 directory was copied or >=1 row inserted (multi-version archive, fault not at "
-        "the first row / kill after the first copy). Distinct = SHA-1 of case JSON.")
+        "the first row / kill after the first copy). Distinct = SHA-1 of case JSON."
+        " Also generated: prior state stale_staging (leftover of a killed restore); fault 'signal' = SIGINT/SIGTERM delivered through Conductor's own handler at the k-th executed line of the restore or at the return of VersionIndex.commit_changes (the signal arrived while sqlite committed), judged like a kill.")
 ASSUMPTIONS = ["process-kill semantics at Python-line granularity (sqlite's own atomic commit is trusted; power loss is out of scope)",
                "new, unrecorded directories may be left behind by a failed restore (the property allows that)"]
 ESSENTIAL = ["dup_row_not_first", "missing_dir_not_first", "kill_after_first_copy", "kill_between_last_copy_and_commit",
